@@ -107,6 +107,7 @@ class Canon:
         self.multi = {vid for vid, c in wcount.items() if c}
         self._stack = set()
         self._depth = 0
+        self.local_ids = set()
         self.ordinal = {}
         if uniform:
             for n in walk(fn.body):
